@@ -152,6 +152,34 @@ func runCheck(root string, args []string) int {
 		}
 	}
 	res := E.solveAll(cfg)
+	// vacuity guards: the axioms alone, and each function's preconditions, must not be contradictory
+	vac := 0
+	{
+		type vq struct {
+			name, reason string
+			q            string
+			res          SolveResult
+		}
+		vqs := []*vq{{name: "vacuity:axioms", reason: "the assumed axioms are contradictory (every obligation would be vacuous)", q: E.buildQuery(ReadU, nil, False)}}
+		for _, n := range names {
+			if pc, ok := E.EntryPC[n]; ok {
+				vqs = append(vqs, &vq{name: "vacuity:requires:" + n, reason: "the preconditions of the contract are contradictory (vacuous contract)", q: E.buildQuery(ReadU, pc, False)})
+			}
+		}
+		done := make(chan bool, len(vqs))
+		for _, v := range vqs {
+			go func(v *vq) { v.res = Solve(v.q, 2, seed, true, false); done <- true }(v)
+		}
+		for range vqs {
+			<-done
+		}
+		for _, v := range vqs {
+			vac++
+			if v.res.Status == "unsat" {
+				report(v.name, v.reason, v.res.Output, "", "", true)
+			}
+		}
+	}
 	known := loadKnown()
 	isKnown := func(name string) *KnownFinding {
 		for i := range known {
@@ -237,6 +265,7 @@ func runCheck(root string, args []string) int {
 			"not_translated":           notTranslated,
 			"trusted_contracts":        trustedContracts,
 			"solver_ms_total":          solverMs,
+			"vacuity_checks":           vac,
 			"dropped_by_extraction":    "event emission, logging, telemetry, iterator Close, gas metering, error message text, context plumbing, protobuf wire format, bech32 text, big.Int bit widths (DESIGN.md 3.8)",
 			"integers":                 "mathematical (A-OVF); LegacyDec per obligation reading U/E/R",
 		},
